@@ -202,6 +202,10 @@ def txn_sites(nodes):
     out = []
     for x in nodes:
         if isinstance(x, ast.Call) and isinstance(x.func, ast.Attribute) and x.func.attr in TXN_CALLS:
+            recv = norm(x.func.value)
+            # close() on a file just opened is not transaction control; commit / rollback are, on anything
+            if x.func.attr == 'close' and not re.search(r'(dbc|conn|connection|cursor|\bdb)\b', recv):
+                continue
             out.append((x, '%s()' % norm(x.func)))
         if isinstance(x, ast.Attribute) and x.attr in ('autocommit', 'isolation_level') and isinstance(x.ctx, ast.Store):
             out.append((x, 'assignment to %s' % norm(x)))
